@@ -125,6 +125,11 @@ func DFS(body Body, verdict Verdict, opts Options) *Stats {
 		choices, sigs := choicesOf(res.Points)
 		label := verdict(res, choices)
 		st.Outcomes[label]++
+		if vsched.Stuck {
+			st.Complete = false
+			st.CapHit = "a thread got stuck (reported as livelock); exploration stopped"
+			break
+		}
 		switch res.Outcome {
 		case vsched.Deadlock:
 			st.Deadlocks++
